@@ -15,7 +15,14 @@ def replay(path):
     work = C.Work("replay")
     try:
         C.coq_build()
-        b, out = mod.build(part.binary, work) if hasattr(mod, "build") else C.build_harness(work, part.binary)
+        fams = [C.FAMILY_FILE[part.family]] if part.family in C.FAMILY_FILE else None
+        if hasattr(mod, "build"):
+            try:
+                b, out = mod.build(part.binary, work, fams=fams)
+            except TypeError:
+                b, out = mod.build(part.binary, work)
+        else:
+            b, out = C.build_harness(work, part.binary, fams=fams)
         if b is None:
             print(out)
             return 1
